@@ -1,7 +1,9 @@
 import RootSim.Model.Stats
 import RootSim.Proofs.StatsLoop
 import Driver.Util
-/-! Driver mode `stats` (C20): the codec, the accounting machine and the loop model, line by line. -/
+/-! Driver mode `stats` (C20): the codec, the accounting machine and the loop model, line by line.
+Stateful in one bit: `variant <0|1>` selects the variant of the loop model (`Cfg.fix6`: 0 = the flush loop of
+`gvt_msg_drain` drops a completed round's value, 1 = it records it); the harness probes the tree and says which. -/
 namespace Driver
 open RootSim.Stats
 
@@ -150,23 +152,36 @@ open RootSim.StatsLoop in
 def digits (s : String) : List Nat := s.toList.map (fun c => c.toNat - '0'.toNat)
 
 open RootSim.StatsLoop in
-/-- `f6 n period stopThread stopBatch voteMode schedule` at yield-point granularity -/
-def f6 (args : List String) : String :=
+/-- `f6 n period stopThread stopBatch voteMode schedule` at yield-point granularity, for the model variant `fix6`;
+`detail`: also the numbers of values dropped in the flush loop -/
+def f6 (fix6 detail : Bool) (args : List String) : String :=
   match args with
   | [n, p, st, sb, vm, sched] =>
     let cfg : Cfg := { n := nat! n, period := nat! p,
                        stopBatch := fun i => if i = nat! st then nat! sb else 0,
-                       voteAt := fun _ => if nat! vm = 1 then 1 else 0 }
+                       voteAt := fun _ => if nat! vm = 1 then 1 else 0,
+                       fix6 := fix6 }
     let s := runHook cfg (initHook cfg) (digits sched)
-    (if allDone s then "done " else "notdone ") ++ joinNat " " (recordCounts s)
+    (if allDone s then "done " else "notdone ") ++ joinNat " " (recordCounts s) ++
+    (if detail then " dropped " ++ joinNat " " (s.ths.map (·.discarded)) ++ " rounds " ++ toString s.sh.started ++
+      " " ++ toString s.sh.completed else "")
   | _ => "bad-op"
 
 open RootSim.StatsLoop in
 /-- the schedule of `RootSim.C20.same_record_count_counterexample_stop`, as an `f6` line -/
 def f6demo : String :=
-  "f6 " ++ toString stopCfg.n ++ " " ++ toString stopCfg.period ++ " 1 " ++ toString (stopCfg.stopBatch 1) ++ " 0 " ++
+  let c := stopCfg false
+  "f6 " ++ toString c.n ++ " " ++ toString c.period ++ " 1 " ++ toString (c.stopBatch 1) ++ " 0 " ++
   String.join (stopSched.map toString)
 
+open RootSim.StatsLoop in
+/-- the 3-thread schedule of the non-vacuity example of `RootSim.C20.same_record_count_fixed_hook` -/
+def f6demo3 : String :=
+  let c := stop3Cfg false
+  "f6 " ++ toString c.n ++ " " ++ toString c.period ++ " 2 " ++ toString (c.stopBatch 2) ++ " 0 " ++
+  String.join (stop3Sched.map toString)
+
+/-- the stateless commands -/
 def statsCmd (toks : List String) : String :=
   match toks with
   | ["layout"] => layout
@@ -179,8 +194,16 @@ def statsCmd (toks : List String) : String :=
     | some d => bytesHex (encode d)
     | none => "bad-op"
   | "acct" :: r => acct r
-  | "f6" :: r => f6 r
   | ["f6demo"] => f6demo
+  | ["f6demo3"] => f6demo3
   | _ => "bad-op"
+
+/-- the line protocol: the state is the selected variant of the loop model -/
+def statsStep (fix6 : Bool) (toks : List String) : Bool × String :=
+  match toks with
+  | ["variant", v] => (v != "0", "ok")
+  | "f6" :: r => (fix6, f6 fix6 false r)
+  | "f6d" :: r => (fix6, f6 fix6 true r)
+  | _ => (fix6, statsCmd toks)
 
 end Driver
